@@ -32,6 +32,7 @@ func init() {
 			timeoutNeedsTTLMode(r)
 			c08TokenGuards(r)
 			c08Deadline(r)
+			customConfigOverrides(r)
 			singleLockRegion(r)
 			lockPairing(r)
 			c07LockSections(r)
@@ -286,7 +287,8 @@ func c08Deadline(r *core.Run) {
 			continue
 		}
 		cnt++
-		// the block is the select case of ctx.Done() where ctx comes from context.WithTimeout(_, deadline)
+		// the return is reached only through the select case of ctx.Done(), where ctx comes
+		// from context.WithTimeout(_, deadline)
 		ok := false
 		var deadline ssa.Value
 		for _, pa := range f.Params {
@@ -299,22 +301,37 @@ func c08Deadline(r *core.Run) {
 			if !isSel {
 				return
 			}
-			for _, st := range sel.States {
+			for k, st := range sel.States {
 				c, isCall := st.Chan.(*ssa.Call)
 				if !isCall || methodName(c) != "Done" {
 					continue
 				}
 				// receiver is the ctx from WithTimeout(e.ctx, deadline)
 				recv := c.Call.Value
-				if ex, isEx := recv.(*ssa.Extract); isEx {
-					if wt, isWT := ex.Tuple.(*ssa.Call); isWT && methodName(wt) == "WithTimeout" && len(wt.Call.Args) == 2 && wt.Call.Args[1] == deadline {
+				ex, isEx := recv.(*ssa.Extract)
+				if !isEx {
+					continue
+				}
+				wt, isWT := ex.Tuple.(*ssa.Call)
+				if !isWT || methodName(wt) != "WithTimeout" || len(wt.Call.Args) != 2 || wt.Call.Args[1] != deadline {
+					continue
+				}
+				// the return's block lies on the "index == k" edge of this select
+				for _, cd := range core.Conditions(ret.Block()) {
+					bin, isBin := cd.Val.(*ssa.BinOp)
+					if !isBin || bin.Op != token.EQL || !cd.Truth {
+						continue
+					}
+					idx, isIdx := bin.X.(*ssa.Extract)
+					kc, isK := bin.Y.(*ssa.Const)
+					if isIdx && isK && idx.Tuple == ssa.Value(sel) && idx.Index == 0 && kc.Value != nil && int(kc.Int64()) == k {
 						ok = true
 					}
 				}
 			}
 		})
 		r.Check(ok, "deadline", fnTryLock+" ErrLockNotAcquired", site(r, instrPos(ret)),
-			"returned from a select on the Done() channel of context.WithTimeout(ctx, deadline)", "lock-not-acquired is not tied to the expiry of the caller's deadline")
+			"returned only from the select case of the Done() channel of context.WithTimeout(ctx, deadline)", "lock-not-acquired is returned on a path other than the expiry of the caller's deadline (the Done() case of context.WithTimeout(ctx, deadline)): a waiting Lock gives up before its deadline")
 	}
 	r.Floor("deadline", cnt, 1)
 }
